@@ -1,6 +1,6 @@
 From Coq Require Import List Arith ZArith.
 Import ListNotations.
-From UJ Require Import Cache.Logical Cache.RunProofs Cache.HistoryProofs.
+From UJ Require Import Cache.Logical Cache.RunProofs Cache.HistoryProofs Cache.SettleProofs.
 
 (** Whatever subset [w] of a run's store writes took effect before the run was cut (each write is
     all-or-nothing: C11), every stored value that a later run would treat as up to date still equals
@@ -31,3 +31,18 @@ Theorem C08_next_run_correct :
   (forall o : nat, output = Some o -> run_output F reg sg fresh output p = scratch F reg sg p o).
 Proof. exact incremental_eq_scratch. Qed.
 Print Assumptions C08_next_run_correct.
+
+(** A value completely written before the cut, all of whose upstream writes also completed, is not
+    rebuilt by the next run with the same fresh_time (nothing upstream changed). *)
+Theorem C08_no_needless_rebuild :
+  forall (F : nat -> list Z -> Z) (reg : registry) (p : plan),
+  wf_plan p -> reg_inj reg -> reg_dom reg p ->
+  forall (sg : sstate) (fresh : option Z) (tw : nat -> Z) (w : nat -> bool) (n : nat),
+  tw_ok sg tw -> (forall i j, down p i j -> (tw i < tw j)%Z) -> (forall m, gt_opt fresh (tw m) = false) ->
+  (forall m, is_written reg sg fresh p m = true -> w m = true -> value_of F reg sg fresh p m <> None) ->
+  (forall m, m = n \/ down p m n ->
+     (is_written reg sg fresh p m = true -> w m = true) /\
+     (forall e, reg m = Some e -> is_src e = true -> is_stale reg sg fresh p m = false)) ->
+  is_stale reg (after_cut F reg sg fresh p tw w) fresh p n = false.
+Proof. exact no_needless_rebuild. Qed.
+Print Assumptions C08_no_needless_rebuild.
